@@ -1,6 +1,8 @@
 """Run visitor methods / refinement methods abstractly under enumerated prop-sets and shapes."""
 from __future__ import annotations
 
+import ast
+
 import itertools
 from typing import Any, Callable, Dict, Iterable, Iterator, List, Optional, Tuple
 
@@ -166,6 +168,44 @@ def _c_from_native(interp: Any, fv: Any, args: List[Any], kwargs: Dict[str, V], 
     return Sym(f"native({a.key()})", "Schema", ("from_native", a))
 
 
+def mutable_fields(ci: Any) -> Dict[str, int]:
+    """Attributes of `self` that some method other than __init__ assigns (name -> line): their value at the start of
+    a visit is whatever earlier visits - or an enclosing visit that is still running - left there."""
+    out: Dict[str, int] = {}
+    for c in ci.mro():
+        for name, m in c.methods.items():
+            if name == "__init__":
+                continue
+            for n in ast.walk(m.node):
+                tgts: List[Any] = []
+                if isinstance(n, ast.Assign):
+                    tgts = list(n.targets)
+                elif isinstance(n, (ast.AugAssign, ast.AnnAssign)):
+                    tgts = [n.target]
+                for t in tgts:
+                    for x in ast.walk(t):
+                        if isinstance(x, ast.Attribute) and isinstance(x.ctx, ast.Store) and isinstance(x.value, ast.Name) \
+                                and x.value.id == "self":
+                            out.setdefault(x.attr, n.lineno)
+    return out
+
+
+def havoc_fields(inst: Inst) -> None:
+    """Sound heap abstraction for visitor state: a field that is re-assigned outside __init__ holds an unknown value
+    (of the kind its initial value had) when a visit starts."""
+    if inst.cls is None:
+        return
+    for name in mutable_fields(inst.cls):
+        cur = inst.attrs.get(name)
+        if isinstance(cur, Const) and not isinstance(cur.value, str):
+            kind = type(cur.value).__name__ if cur.value is not None else None
+            inst.attrs[name] = Sym(f"self.{name}", kind, ("field", name))
+    for v in list(inst.attrs.values()):
+        if isinstance(v, Inst) and v is not inst and getattr(v, "_havoc_done", False) is False:
+            v._havoc_done = True        # type: ignore[attr-defined]
+            havoc_fields(v)
+
+
 def make_visitor(i: Interp, visitor: str) -> Inst:
     """Instantiate a visitor the way the package does for its module-level singleton."""
     model = i.model
@@ -173,11 +213,13 @@ def make_visitor(i: Interp, visitor: str) -> Inst:
         v = i.module_name(i.prog.module("d42.generation"), "_generator")
         if not isinstance(v, Inst):
             raise RuntimeError("generation._generator singleton could not be evaluated")
+        havoc_fields(v)
         return v
     ci = model.visitors[visitor]
     inst = i._construct(ci, [], {}, None)
     assert isinstance(inst, Inst)
     inst.origin = "visitor"
+    havoc_fields(inst)
     return inst
 
 
